@@ -1,6 +1,8 @@
 package verifdemo
 
 import (
+	"fmt"
+	"strings"
 	"context"
 	"testing"
 
@@ -210,4 +212,28 @@ func TestC13UpdateTableCannotRetypeKey(t *testing.T) {
 	if err := v2.AddIndex(ctx, c, tbl, "idx2", "g", ""); err != nil {
 		t.Errorf("a plain new index was rejected: %v", err)
 	}
+}
+
+// C09/C17: an UpdateItem without UpdateExpression is answered with an error by both clients; the v2 client used to
+// dereference the nil pointer (a runtime fault).
+func TestC17UpdateItemWithoutExpression(t *testing.T) {
+	ctx := context.Background()
+	c := v2.NewClient()
+	if err := v2.AddTable(ctx, c, "tbl", "h", ""); err != nil {
+		t.Fatal(err)
+	}
+	tbl := "tbl"
+	func() {
+		defer func() {
+			if r := recover(); r != nil {
+				if _, ok := r.(error); !ok || strings.Contains(fmt.Sprint(r), "nil pointer") {
+					t.Errorf("v2 UpdateItem without UpdateExpression crashed: %v", r)
+				}
+			}
+		}()
+		_, err := c.UpdateItem(ctx, &dynamodb.UpdateItemInput{TableName: &tbl, Key: map[string]v2types.AttributeValue{"h": &v2types.AttributeValueMemberS{Value: "a"}}})
+		if err == nil {
+			t.Errorf("v2 UpdateItem without UpdateExpression succeeded")
+		}
+	}()
 }
